@@ -516,9 +516,15 @@ func (t *c06Tracer) local(fr *c06Frame, v *types.Var) {
 				case len(x.Lhs) == len(x.Rhs):
 					t.expr(fr, x.Rhs[i])
 				case len(x.Rhs) == 1:
-					if call, ok := ast.Unparen(x.Rhs[0]).(*ast.CallExpr); ok {
-						t.call(fr, call, i)
-					} else {
+					switch r := ast.Unparen(x.Rhs[0]).(type) {
+					case *ast.CallExpr:
+						t.call(fr, r, i)
+					case *ast.IndexExpr, *ast.TypeAssertExpr:
+						// v, ok := m[k] / x.([]string)
+						if i == 0 {
+							t.expr(fr, r)
+						}
+					default:
 						t.out.addUndec("`" + f.Str(x) + "` in " + f.Name + " is not understood")
 					}
 				}
@@ -558,12 +564,20 @@ func c06SharedParents(c *kit.Ctx, r5 *kit.Rule, upf *kit.Func, loops []*walkLoop
 	info := upf.Info()
 	// the walkers that iterate over the list as it is handed out
 	var exposed, unknown []string
+	add := func(l []string, s string) []string {
+		for _, x := range l {
+			if x == s {
+				return l
+			}
+		}
+		return append(l, s)
+	}
 	for _, wl := range loops {
 		switch {
 		case wl.loop == nil:
-			unknown = append(unknown, wl.w.f.Name)
+			unknown = add(unknown, wl.w.f.Name)
 		case wl.recInLoop && !wl.copied:
-			exposed = append(exposed, wl.f.Name)
+			exposed = add(exposed, wl.f.Name)
 		}
 	}
 	seen := map[string]int{}
@@ -625,7 +639,7 @@ func c06SharedParents(c *kit.Ctx, r5 *kit.Rule, upf *kit.Func, loops []*walkLoop
 		case len(shared) > 0 && len(unknown) > 0:
 			o.Undecided("the list is backed by %s; how %s iterates over it was not established", strings.Join(shared, " and "), strings.Join(unknown, " / "))
 		case len(shared) > 0:
-			o.OK("backed by %s, but every walker copies the list before it recurses", strings.Join(shared, " and "))
+			o.OK("backed by %s, but no walker recurses inside a loop over the list as handed out (each copies it first)", strings.Join(shared, " and "))
 		case len(undec) > 0:
 			o.Undecided("%s", strings.Join(undec, "; "))
 		default:
